@@ -255,6 +255,14 @@ def bind(self, t, v, st, node):
         if isinstance(v, Num) and v.is_array and v.mid is None:
             v.mid = self.fresh_mid()
         st.env[t.id] = v
+        views = self.frames[-1].__dict__.setdefault('slice_views', {}) if self.frames else None
+        if views is not None:
+            sv = getattr(v, 'slice_view', None) if isinstance(v, Num) else None
+            if sv is not None and isinstance(node, ast.Assign) and isinstance(node.value, ast.Subscript) and sv[0] != t.id \
+                    and sv[0] not in views:
+                views[t.id] = sv + (v.uid,)          # (a view of a view, or of the name itself, is not followed)
+            else:
+                views.pop(t.id, None)
         return
     if isinstance(t, (ast.Tuple, ast.List)):
         n = len(t.elts)
@@ -298,6 +306,10 @@ def bind(self, t, v, st, node):
 
 
 def store_subscript(self, t, v, st, node):
+    from .interp_expr import view_target
+    t2v = view_target(self, t, st)
+    if t2v is not None:
+        return self.store_subscript(t2v, v, st, node)
     base = self.eval(t.value, st)
     idx = self.eval(t.slice, st)
     rv = getattr(base, 'rowview', None) if isinstance(base, Num) else None
@@ -316,6 +328,7 @@ def store_subscript(self, t, v, st, node):
     if isinstance(base, Num):
         nv = tonum(v)
         self.events.append(('store', node, base.shape, taint_of(v) | self.pc, taint_of(idx), self.cur.qname if self.cur else ''))
+        self.events.append(('store-mid', node, base.mid))
         if base.view_of:
             self.events.append(('inplace', node, base.view_of, self.cur.qname if self.cur else ''))
         if nv is None:
@@ -327,6 +340,10 @@ def store_subscript(self, t, v, st, node):
                 self.conflict('store', 'dtype', 'a complex value is stored into a real array: its imaginary part is discarded', node)
             if base.intdt and getattr(nv, 'divd', False):
                 self.events.append(('int-store', node, self.cur.qname if self.cur else ''))
+            if getattr(nv, 'rev_of', None) is not None and nv.rev_of in (base.mid, base.uid) and base.org is not None:
+                # a correlation sequence overwritten with its own mirror image: r[-k] = conj(r[k]) needs the conjugate for complex data
+                self.events.append(('self-mirror', node, bool(base.cplx), nv.conj_of is not None or bool(nv.rv),
+                                    self.cur.qname if self.cur else ''))
             key = normalise(t.value)
             # A[:] = v overwrites every element (numpy raises unless v has the same length or broadcasts)
             whole_ = isinstance(idx, SliceV) and idx.lo is None and idx.hi is None and idx.step is None
@@ -347,6 +364,8 @@ def store_subscript(self, t, v, st, node):
                 new.rv = True if nv.rv and False else None
             new.nonneg = (b0.nonneg or b0.zero) and nv.nonneg
             new.role = base.role
+            # numpy.empty: the buffer is initialised only once a covering loop / a full slice store has written every element
+            new.uninit = bool(base.uninit) and not (self.frames[-1].strong.get(key) or whole_)
             if base.cover is not None and base.shape is not None and len(base.shape) == 1 and base.shape[0] is not None:
                 # what the buffer holds piece by piece (cover.py): slice stores with affine bounds, unit step
                 from . import cover as CV
@@ -463,6 +482,17 @@ def store_subscript(self, t, v, st, node):
             for i in base.items:
                 e = join(e, i)
         new = SeqV(join(e, v), base.n if isinstance(base, SeqV) else Aff(len(base.items)), taint_of(base) | taint_of(v))
+        if self.d4:
+            # charges by position of a list that is filled item by item: lst[k] = v solves / checks the position law like an array
+            from . import charge as Q
+            ia_ = _asint(idx)
+            vq_ = tonum(v).q if tonum(v) is not None else None
+            old_q = getattr(base, 'qarr', None)
+            if old_q is None:
+                en = tonum(e) if e is not None and not isinstance(e, (Tup, SeqV, TopV)) else None
+                old_q = 'any' if (en is not None and en.zero) else None
+            if old_q is not None and ia_ is not None and ia_.a is not None and vq_ is not None:
+                new.qarr = Q.q_store_scalar(self, old_q, ia_.a, vq_, node)
         if isinstance(tv, ast.Name):
             st.env[tv.id] = new
         return
@@ -479,6 +509,11 @@ def store_subscript(self, t, v, st, node):
             return
     if isinstance(base, (TopV, Opaque)):
         return
+    if isinstance(base, Const) and isinstance(base.v, list) and isinstance(t.value, ast.Name):
+        # a literal list ([None, None], [0, 0]) used as a small table: continue as a list of its items
+        as_list = Tup([x_ if isinstance(x_, Val) else Const(x_) for x_ in base.v], base.taint, mutable=True)
+        st.env[t.value.id] = as_list
+        return self.store_subscript(t, v, st, node)
     self.unsupported('element store into %s' % type(base).__name__, node)
 
 
@@ -608,12 +643,17 @@ def s_If(self, s, st, frame):
         frame.last_end = None
         frame.last_break_hit = False
         a = arm(s.body, sta, refine is not None and not refine[1])
+        if a is None and frame.last_end in ('break', 'return') and frame.loops:
+            # leaving a loop early under a test that could not be decided: which data the decision depends on
+            self.events.append(('guard-break', s, frame.last_end, taint_of(c) | self.pc, self.cur.qname if self.cur else ''))
         if a is None and frame.last_end in ('break', 'continue', 'return'):
             abrupt = True
         if a is None and frame.last_end == 'raise':
             raised = True
         frame.last_end = None
         b = arm(s.orelse, stb, refine is not None and refine[1])
+        if b is None and frame.last_end in ('break', 'return') and frame.loops:
+            self.events.append(('guard-break', s, frame.last_end, taint_of(c) | self.pc, self.cur.qname if self.cur else ''))
         if b is None and frame.last_end in ('break', 'continue', 'return'):
             abrupt = True
         if b is None and frame.last_end == 'raise':
@@ -1038,6 +1078,9 @@ def s_For(self, s, st, frame):
         items = [Const(k_, it.taint) for k_ in it.v.keys()]        # iterating a dict visits its keys
     elif isinstance(it, Tup) and len(it.items) <= 24 and not frame.loops:
         items = list(it.items)
+    elif isinstance(it, Opaque) and it.what == 'enumerate' and len(it.args) == 1 and isinstance(it.args[0], Tup) \
+            and len(it.args[0].items) <= 8 and not frame.loops:
+        items = [Tup([Const(i_), x_]) for i_, x_ in enumerate(it.args[0].items)]          # enumerate over a short literal tuple
     elif getattr(self, 'unroll', False) and isinstance(it, Opaque) and it.what == 'range':
         # bounded instance analysis: a range with concrete bounds and a short trip count is executed iteration by iteration
         lo_, hi_, st_ = it.args
@@ -1045,19 +1088,46 @@ def s_For(self, s, st, frame):
             rng = range(int(lo_.c), int(hi_.c), st_)
             if len(rng) <= 8:
                 items = [Const(i) for i in rng]
-    if items is not None and not any(isinstance(n, (ast.Break, ast.Continue)) for b in s.body for n in ast.walk(b)):
+    def own_jumps(kind):
+        # break / continue statements that belong to this loop (not to a loop nested in its body)
+        out = []
+        def walk(n_):
+            for ch in ast.iter_child_nodes(n_):
+                if isinstance(ch, (ast.For, ast.While, ast.FunctionDef, ast.Lambda)):
+                    continue
+                if isinstance(ch, kind):
+                    out.append(ch)
+                walk(ch)
+        for b_ in s.body:
+            if isinstance(b_, kind):
+                out.append(b_)
+            if not isinstance(b_, (ast.For, ast.While, ast.FunctionDef)):
+                walk(b_)
+        return out
+    if items is not None and not own_jumps(ast.Break):
         cur = st
+        has_cont = bool(own_jumps(ast.Continue))
         for x in items:
             if cur is None:
                 return None
             self.bind(s.target, x, cur, s)
-            cur = self.exec_block(s.body, cur, frame)
+            if has_cont:
+                # `continue` ends this pass only: the states that reach it flow into the next item
+                frame.loops.append({'breaks': [], 'conts': [], 'certain': False, 'node': s, 'len0': {}, 'unrolled': True})
+                out_ = self.exec_block(s.body, cur, frame)
+                rec_ = frame.loops.pop()
+                for c_ in rec_['conts']:
+                    out_ = join_st(out_, c_) if out_ is not None else c_
+                cur = out_
+            else:
+                cur = self.exec_block(s.body, cur, frame)
         if cur is not None and s.orelse:
             cur = self.exec_block(s.orelse, cur, frame)
         return cur
     strong = []
     if isinstance(it, Opaque) and it.what == 'range':
         lo, hi, step = it.args
+        self.events.append(('range-loop', s, lo, hi, step, self.cur.qname if self.cur else ''))
         if step == 1:
             strong = _covering_targets(self, s, st, lo, hi)
     for name in strong:
